@@ -614,7 +614,10 @@ fn run_family(g: &J, hosts: &[HostSpec], mk: impl Fn() -> Runtime) -> J {
     match kind {
         "gc_starts" => {
             let max_tick = g.get("max_tick").and_then(|x| x.as_u64()).unwrap_or(400).min(ref_ticks);
-            let stride = g.get("stride").and_then(|x| x.as_u64()).unwrap_or(1).max(1);
+            let mut stride = g.get("stride").and_then(|x| x.as_u64()).unwrap_or(1).max(1);
+            if let Some(points) = g.get("points").and_then(|x| x.as_u64()) {
+                stride = stride.max(max_tick.div_ceil(points.max(1)));
+            }
             let marks = g.get("marks").and_then(|x| x.as_array()).cloned().unwrap_or(vec![json!(1), json!("max")]);
             let sweeps = g.get("sweeps").and_then(|x| x.as_array()).cloned().unwrap_or(vec![json!(1), json!("max")]);
             let extra: Vec<u64> = g
